@@ -129,8 +129,16 @@ def mk_parent(p, N):
         return lib.chrom_parent(GENOME[:N], name=CHROM)
     if p == "chrom0":
         return Parent(id=CHROM, sequence_type=SequenceType.CHROMOSOME)
+    if p == "chroms":  # a chromosome whose sequence declares the strict alphabet (not the parser's default one)
+        from inscripta.biocantor.sequence.alphabet import Alphabet
+
+        return lib.chrom_parent(GENOME[:N], name=CHROM, alphabet=Alphabet.NT_STRICT)
     if p[0] == "chunk":
         return lib.chunk_parent(GENOME[:N], p[1], p[2], name=CHROM)
+    if p[0] == "chunks":  # a chunk that declares the strict alphabet
+        from inscripta.biocantor.sequence.alphabet import Alphabet
+
+        return lib.chunk_parent(GENOME[:N], p[1], p[2], name=CHROM, alphabet=Alphabet.NT_STRICT)
     if p[0] == "chunkm":  # the chunk [a,b) lies on the MINUS strand of the chromosome: its text is the reverse complement
         from inscripta.biocantor.io.parser import seq_chunk_to_parent
         from inscripta.biocantor.location.strand import Strand
@@ -214,7 +222,7 @@ def parent_kinds(lo, hi, N, tier):
     for w in wins:
         if w not in seen:
             seen.append(w)
-    return out + [["chunk", a, b] for a, b in seen]
+    return out + [["chunk", a, b] for a, b in seen] + ["chroms", ["chunks", seen[0][0], seen[0][1]], ["chunks", seen[1][0], seen[1][1]]]
 
 
 # ---------------------------------------------------------------------------------------------------------------------
